@@ -706,26 +706,29 @@ def rule(prop):
 
 def partial_clauses(prop):
     return [
-        "merge_children: C08_merge_children covers the shift to an absent destination; merging into an existing "
-        "destination node, with copy, or together with delete_children: no theorem (correspondence + prop_C08 on "
-        "every implementation output)",
+        "umbrella `prop_C08 i (model i) = true`: proved for two families only - C08_model_satisfies_prop_shift_partial "
+        "(accepted: plain shift, full paths, one pair, sep = tree.sep of any positive length, names free of separator "
+        "characters) and C08_model_satisfies_prop_both_merges (refused: merge_children + merge_leaves, all inputs); for "
+        "every other family the predicate is evaluated on the implementation's output only and the theorems below are "
+        "about resolved references (cs_core / rp_core), not about the whole string-level call",
+        "merge_children: C08_merge_children (destination absent) and C08_merge_children_existing (destination present, no "
+        "overriding); with copy or together with delete_children: no theorem",
         "merge_leaves: C08_merge_leaves_partial holds under the guard 'every child of the source node is a leaf'; deeper "
-        "source subtrees, existing destinations, copy: no theorem; same",
-        "replace_position: C08_replace_position_tt (tree-to-tree, any source node below the root), "
-        "C08_replace_position_left_sibling and C08_replace_position_right_sibling (same tree, source a sibling of the "
-        "replaced node); a source in an unrelated branch of the same tree, nested nodes, delete_children: no theorem; same",
+        "source subtrees, existing destinations, copy: no theorem",
+        "replace_position: C08_replace_position_tt (tree-to-tree), _left_sibling, _right_sibling, _unrelated (source neither "
+        "below the replaced node's parent nor an ancestor of it; table result stated as A ++ L ++ F ++ R ++ B, not linked to "
+        "Spec.edit_rp); a source below the replaced node's parent but not a sibling (inside a sibling's subtree), nested "
+        "nodes, delete_children: no theorem",
         "delete_children: C08_delete_children (shift) and C08_delete_children_copy (copy) for an absent destination; with "
-        "overriding / merge flags / replace: no theorem; same",
+        "overriding / merge flags / replace: no theorem",
+        "copies: C08_copy_keeps_source, C08_copy_fresh (tags None, same names and attributes), "
+        "C08_tree_to_tree_source_untouched; not connected to the heap-id results of Heap/Effects",
         "override / shift with one node inside the other, from == to with a merge flag, copy into the source subtree: "
-        "no theorem; same (prop_C08 is lenient for destinations inside the source subtree)",
-        "string layer: C08_shift_whole_call_multi (C08_shift_whole_call = its one-character instance) ties "
-        "rstrip/replace/split, the argument checks, find_full_path and add_path_to_tree to the table result for one plain "
-        "full-path pair under a separator of any positive length (sep = tree.sep) no CHARACTER of which occurs in a name "
-        "on the two paths; substring-free names that start/end with a separator character are known finding K3; empty "
-        "separators are modelled (an empty tree.sep makes split raise ValueError before any pair is processed, an empty "
-        "`sep` is no error) and compared by the correspondence, without a theorem; C08_multi_is_sequence and C08_tree_to_tree_source_untouched are whole-call theorems "
-        "for all inputs; partial from-paths (find_path), leading/trailing separators and differing sep / tree.sep are "
-        "tied to the code by the correspondence only",
+        "no theorem (prop_C08 is lenient for destinations inside the source subtree)",
+        "string layer: C08_shift_whole_call_multi needs full paths without leading/trailing separator and sep = tree.sep; "
+        "sep != tree.sep (replace(sep, tree.sep)), partial from-paths (find_path suffix addressing, ambiguity error), "
+        "leading/trailing separators, empty separators: modelled and compared by the correspondence, no theorem; "
+        "C08_multi_is_sequence and C08_tree_to_tree_source_untouched are whole-call theorems for all inputs",
         "accepted blind spots of the correspondence (leniency audit): (a) F_SKIP domains, where neither model nor "
         "predicate constrain the outcome: merge_leaves without copy into the source subtree (lazy generator), a call that "
         "re-parents the tree object itself (root shifted with delete_children below itself); (b) prop_C08 "
